@@ -98,18 +98,23 @@ def build_specs(basic_nodes: dict, basic_marks: dict, list_nodes: dict) -> dict:
                 "content": "inline*",
                 "group": "block",
                 "attrs": {"data": {"default": {"k": [1, {"x": None}]}}, "n": {"default": 0}},
+                "toDOM": lambda n: ["p", {"n": n.attrs["n"], "title": None}, 0],
             },
             "widget": {
                 "inline": True,
                 "group": "inline",
                 "attrs": {"id": {}, "cfg": {"default": None}},
+                "toDOM": lambda n: ["span", n.attrs],
             },
-            "gadget": {"inline": True, "group": "inline", "attrs": {"opt": {"default": 1}, "req": {}}},
+            "gadget": {"inline": True, "group": "inline", "attrs": {"opt": {"default": 1}, "req": {}},
+                       "toDOM": lambda n: ["b", n.attrs]},
             "text": {"group": "inline"},
         },
         "marks": {
-            "note": {"attrs": {"id": {}, "tags": {"default": ["t"]}}, "excludes": ""},
-            "em": {},
+            "note": {"attrs": {"id": {}, "tags": {"default": ["t"]}}, "excludes": "", "inclusive": False,
+                     "toDOM": lambda m, _i: ["span", m.attrs, 0]},
+            "tag": {"inclusive": False, "toDOM": lambda m, _i: ["i", 0]},
+            "em": {"toDOM": lambda m, _i: ["em", 0]},
         },
     }
     # Z-ctx: list schema + a `note` block whose parse rule is restricted by a context expression
@@ -168,6 +173,8 @@ def mark_family_specs(orders=None):
                         "box_grp": {"content": "block+", "group": "block", "marks": "grp C"},
                         "text": {"group": "inline"},
                         "atom": {"inline": True, "group": "inline"},
+                        "chip": {"inline": True, "group": "inline", "content": "text*", "atom": True},
+                        "span": {"inline": True, "group": "inline", "content": "text*"},
                     }
                     out.append((f"fm{oi}.{k}", {"nodes": nodes, "marks": marks}))
                     k += 1
